@@ -632,34 +632,83 @@ def scenario_joins(ctx):
 
     def tables():
         return sorted(r[0] for r in conn.queryAll("SELECT name FROM sqlite_master WHERE type='table'"))
-    # (1) a pair declared from both sides: exactly one class creates the link table, whatever the creation order
-    for order in (0, 1):
-        a_name, b_name = sqlo.uniq('C14JoinAa'), sqlo.uniq('C14JoinBb')
-        A = type(a_name, (so.SQLObject,), {'_connection': conn, 'n': so.IntCol(), 'others': so.RelatedJoin(b_name)})
-        B = type(b_name, (so.SQLObject,), {'_connection': conn, 'n': so.IntCol(), 'others': so.RelatedJoin(a_name)})
+    # (1) pairs: declared from both sides or by the first class only, default / custom / inverted table names, styles,
+    #     either creation order; then each declaring class is dropped and created again
+    from sqlobject import styles
+    variants = []
+    for naming in ('default', 'inverted', 'custom-same-order', 'plain-style', 'lower-second'):
+        for declared in ('both', 'first-only'):
+            for order in (0, 1):
+                variants.append((naming, declared, order))
+    own_lines, own_real = [], []
+    for naming, declared, order in variants:
+        if naming == 'lower-second':          # class names: 'C14Join…' < 'c14join…' ; default tables sort the other way round
+            a_name, b_name = sqlo.uniq('C14JoinZz'), sqlo.uniq('c14joinAa')
+        else:
+            a_name, b_name = sqlo.uniq('C14JoinAa'), sqlo.uniq('C14JoinBb')
+        assert a_name < b_name
+        meta_a, meta_b = {}, {}
+        if naming == 'inverted':
+            meta_a['table'], meta_b['table'] = 'zz_' + a_name.lower(), 'aa_' + b_name.lower()
+        elif naming == 'custom-same-order':
+            meta_a['table'], meta_b['table'] = 'aa_' + a_name.lower(), 'zz_' + b_name.lower()
+        elif naming == 'plain-style':
+            meta_a['style'] = meta_b['style'] = styles.Style()
+        body_a = {'_connection': conn, 'n': so.IntCol(), 'others': so.RelatedJoin(b_name), 'sqlmeta': type('sqlmeta', (), meta_a)}
+        body_b = {'_connection': conn, 'n': so.IntCol(), 'sqlmeta': type('sqlmeta', (), meta_b)}
+        if declared == 'both':
+            body_b['others'] = so.RelatedJoin(a_name)
+        A = type(a_name, (so.SQLObject,), body_a)
+        B = type(b_name, (so.SQLObject,), body_b)
         first, second = (A, B) if order == 0 else (B, A)
         link = A.sqlmeta.joins[0].intermediateTable
-        case = {'scenario': 'related-join-pair', 'order': order}
+        case = {'scenario': 'related-join-pair', 'naming': naming, 'declared': declared, 'order': order,
+                'tables': [A.sqlmeta.table, B.sqlmeta.table]}
+        declaring = [A, B] if declared == 'both' else [A]
+
+        def usable(tag):
+            a = A(n=1)
+            b = B(n=2)
+            getattr(a, 'add' + b_name[0].upper() + b_name[1:])(b)
+            seen = [x.id for x in a.others]
+            if seen != [b.id] or (declared == 'both' and [x.id for x in b.others] != [a.id]):
+                ctx.oracle_fail('C14:join:link-unusable', '%s: rows linked through the link table are not seen from the declaring sides' % tag, case)
         try:
             first.createTable()
-            n1 = tables().count(link)
             second.createTable()
             n2 = tables().count(link)
-            creators = [c.__name__ for c in (A, B) if c._getJoinsToCreate()]
-            if n2 != 1 or len(creators) != 1:
-                ctx.oracle_fail('C14:join:pair-not-once', 'link table %s exists %d times; creators %r' % (link, n2, creators), case)
+            creators = [c.__name__ for c in declaring if c._getJoinsToCreate()]
+            if n2 != 1:
+                key = 'C14:join:pair-not-once' if declared == 'both' else 'C14:join:one-sided-first-class-never-created'
+                ctx.oracle_fail(key, 'after createTable() of both classes (%s table names, join declared by %s) the link table %s exists %d times; '
+                                'creating classes %r' % (naming, declared, link, n2, creators), case)
+                continue
+            if declared == 'both' and len(creators) != 1:
+                ctx.oracle_fail('C14:join:pair-not-once', 'creating classes %r' % (creators,), case)
             info = conn.queryAll('PRAGMA table_info(%s)' % link)
             j = A.sqlmeta.joins[0]
             if sorted(r[1] for r in info) != sorted([j.joinColumn, j.otherColumn]) or not all(r[3] for r in info):
                 ctx.oracle_fail('C14:join:link-columns', 'link table columns %r' % (info,), case)
-            a = A(n=1)
-            b = B(n=2)
-            a.addOther = getattr(a, 'add' + b_name)
-            a.addOther(b)
-            if [x.id for x in a.others] != [b.id] or [x.id for x in b.others] != [a.id]:
-                ctx.oracle_fail('C14:join:link-unusable', 'rows linked through the created table are not seen from both sides', case)
+            usable('after creation')
             first.createTable(ifNotExists=True)
             second.createTable(ifNotExists=True)
+            # who creates / who drops, observed, for the model stream
+            for X, Y in ((A, B), (B, A)):
+                if X not in declaring:
+                    continue
+                creates = bool(X._getJoinsToCreate())
+                X.dropTable()
+                drops = link not in tables()
+                own_lines.append('own %s %s %s %s' % (hx(X.__name__), hx(X.sqlmeta.table), hx(Y.__name__), hx(Y.sqlmeta.table)))
+                own_real.append(('%s %s' % (b01(creates), b01(drops)), dict(case, cls=X.__name__)))
+                # drop one class and create it again: the pair must be whole again
+                X.createTable()
+                if tables().count(link) != 1:
+                    ctx.oracle_fail('C14:join:link-missing-after-recreate',
+                                    '%s.dropTable(); %s.createTable(): the link table %s is %s (this class creates: %s, drops: %s)'
+                                    % (X.__name__, X.__name__, link, 'missing' if link not in tables() else 'duplicated', creates, drops), case)
+                    break
+                usable('after drop + create of %s' % X.__name__)
             A.dropTable(ifExists=True)
             B.dropTable(ifExists=True)
             A.dropTable(ifExists=True)
@@ -669,6 +718,16 @@ def scenario_joins(ctx):
             ctx.count('join-pair-scenario')
         except Exception as e:
             ctx.oracle_fail('C14:join:pair-raises', 'RelatedJoin pair scenario raises %s: %s' % (type(e).__name__, e), case)
+        finally:
+            for t in (link, A.sqlmeta.table, B.sqlmeta.table):
+                try:
+                    conn.query('DROP TABLE IF EXISTS %s' % t)
+                except Exception:
+                    pass
+    outs = ctx.model(own_lines)
+    if outs is not None:
+        for o, (real, c) in zip(outs, own_real):
+            ctx.compare('link-table ownership (creates, drops): model = observed on real classes', c, o, real)
     # (2) self-referential join declared in both directions (needed for symmetric access): created twice
     sj = sqlo.uniq('C14SelfJoin')
     link = sj.lower() + '_link'
@@ -808,6 +867,84 @@ def scenario_evolution_ids(ctx):
                     c.dropTable(ifExists=True)
                 except Exception:
                     pass
+
+
+def scenario_evolution_kinds(ctx):
+    """delColumn(changeSchema=True) of a column of every option kind (plain, unique, alternateID, notNone, covered by a
+    DatabaseIndex, foreign key, enum, with defaultSQL), then the table is used again: class and table in step, the other
+    columns' data under the same ids, a new row goes in and comes back; then addColumn of the same kinds."""
+    import sqlobject as so
+    conn = env()['conns']['sqlite']
+    rng = ctx.rng
+    victims = ['plain', 'uniq', 'alt', 'must', 'indexed', 'ref', 'en', 'dflt']
+    rounds = ctx.budget(1, 6)
+    for rep in range(rounds):
+        for victim in victims:
+            tname = sqlo.uniq('C14EvoKTgt')
+            Tg = type(tname, (so.SQLObject,), {'_connection': conn, 'n': so.IntCol(default=None)})
+            name = sqlo.uniq('C14EvoK')
+            body = {'_connection': conn, 'keepB': so.StringCol(),
+                    'plain': so.IntCol(default=None), 'uniq': so.StringCol(unique=True), 'alt': so.StringCol(alternateID=True),
+                    'must': so.IntCol(notNone=True), 'indexed': so.IntCol(default=None),
+                    'ref': so.ForeignKey(tname, default=None, cascade=rng.choice([None, True, False, 'null'])),
+                    'en': so.EnumCol(enumValues=['a', "b'c"], default='a'), 'dflt': so.IntCol(defaultSQL='4', default=None)}
+            if victim == 'indexed':
+                body['ix'] = so.DatabaseIndex('indexed', unique=bool(rep % 2))
+            T = type(name, (so.SQLObject,), body)
+            table = T.sqlmeta.table
+            case = {'scenario': 'evolution-kinds', 'victim': victim, 'rep': rep}
+            try:
+                Tg.createTable()
+                T.createTable()
+                tg = Tg(n=1)
+                for i in range(4):
+                    T(keepB='k%d' % i, plain=i, uniq='u%d' % i, alt='a%d' % i, must=i, indexed=10 + i, ref=tg.id if i % 2 else None,
+                      en="b'c" if i % 2 else 'a', dflt=i)
+                T.get(2).destroySelf()
+                col_obj = T.sqlmeta.columns['refID' if victim == 'ref' else victim]
+                keep = [c.dbName for c in T.sqlmeta.columnList if c is not col_obj]
+
+                def content(cols):
+                    return conn.queryAll('SELECT id, %s FROM %s ORDER BY id' % (', '.join(cols), table))
+                before = content(keep)
+                raised = None
+                try:
+                    T.sqlmeta.delColumn(col_obj, changeSchema=True)
+                except Exception as e:
+                    raised = '%s: %s' % (sqlo.exc_name(e), e)
+                tcols = [r[1] for r in conn.queryAll('PRAGMA table_info(%s)' % table)]
+                ccols = ['id'] + [c.dbName for c in T.sqlmeta.columnList]
+                if raised is not None or tcols != ccols or ccols != ['id'] + keep:
+                    ctx.oracle_fail('C14:evolution:del-out-of-step',
+                                    'delColumn(<%s column>, changeSchema=True) %s; table columns %r, class columns %r'
+                                    % (victim, 'raised ' + raised if raised else 'returned', tcols, ccols), case)
+                elif content(keep) != before:
+                    ctx.oracle_fail('C14:evolution:del-changes-data', 'delColumn(<%s column>) changed ids or other columns' % victim, case)
+                # the table is still usable through the class
+                vals = dict(keepB='new', plain=7, uniq='u-new', alt='a-new', must=5, indexed=77, ref=tg.id, en='a', dflt=1)
+                vals.pop(victim)
+                try:
+                    conn.cache.clear()
+                    o = T(**vals)
+                    oid = o.id
+                    conn.cache.clear()
+                    back = T.get(oid)
+                    got = {k: (getattr(back, 'refID') if k == 'ref' else getattr(back, k)) for k in vals}
+                    if got != vals:
+                        ctx.oracle_fail('C14:evolution:insert-after-del-readback', 'inserted %r, read back %r' % (vals, got), case)
+                except Exception as e:
+                    ctx.oracle_fail('C14:evolution:insert-after-del-fails',
+                                    'after delColumn(<%s column>, changeSchema=True) a row cannot be inserted / read through the class: %s: %s'
+                                    % (victim, sqlo.exc_name(e), str(e)[:120]), case)
+                ctx.count('evolution-kinds-scenario')
+            except Exception as e:
+                ctx.oracle_fail('C14:evolution:raises', 'schema evolution (kinds) scenario raises %s: %s' % (type(e).__name__, e), case)
+            finally:
+                for c in (T, Tg):
+                    try:
+                        conn.query('DROP TABLE IF EXISTS %s' % c.sqlmeta.table)
+                    except Exception:
+                        pass
 
 
 def scenario_evolution(ctx):
@@ -1114,6 +1251,7 @@ def run(ctx):
     scenario_joins(ctx)
     scenario_evolution(ctx)
     scenario_evolution_ids(ctx)
+    scenario_evolution_kinds(ctx)
     # link-table ownership: model predicate vs _getJoinsToCreate's comparison
     pairs = [('A', 'B'), ('B', 'A'), ('A', 'A'), ('Ab', 'A'), ('a', 'B'), ('Zed', 'Alpha'), ('X1', 'X10'), ('é', 'z')]
     for _ in range(ctx.budget(50, 2000)):
@@ -1183,6 +1321,8 @@ def replay(case):
         c.rng = prng(0)
         if case['scenario'] == 'evolution-ids':
             scenario_evolution_ids(c)
+        elif case['scenario'] == 'evolution-kinds':
+            scenario_evolution_kinds(c)
         elif case['scenario'] in ('evolution', 'failed-add'):
             scenario_evolution(c)
         else:
